@@ -3,12 +3,17 @@
    emits names an element that the policy allows by name or by pattern, comments are emitted only
    when allowed, doctypes never, and every other emitted item is an escaped text token of the
    input or the blank of AddSpaceWhenStrippingTag.
-   Missing for the full statement: that an HTML tokenizer reading the rendered bytes finds
-   exactly these items (Html/RoundTrip); until then that step is carried by the implementation
-   side oracle (re-tokenisation and html.ParseFragment in ten containers on every case). *)
+   Proved in addition, for every policy that keeps no comments and allows no raw-text element
+   (plain_policy; StrictPolicy and UGCPolicy are instances, C04) and every input byte string:
+   the tokens that the tokenizer model reads from the sanitized BYTES are text tokens or tags
+   naming an allowed element, never a comment or doctype (C01_output_tokens, from the round-trip
+   theorem Proofs/SanRoundTrip.retokenize_sanitize).
+   Missing for the full statement: the same byte-level statement for policies that keep comments
+   or raw-text elements, and the tree-builder clause (x/net/html's parser in ten containers is not
+   modelled); both are carried by the implementation-side oracle on every generated case. *)
 From Coq Require Import List NArith Bool.
 Import ListNotations.
-From BM Require Import Bytes Tokenizer Policy Loop LoopInv LoopProps.
+From BM Require Import Bytes Tokenizer Policy Loop LoopInv LoopProps SanRoundTrip TokenLevel.
 
 Section C01.
   Variables M U R : Type.
@@ -39,6 +44,20 @@ Section C01.
   Theorem C01_output_is_rendered_items : forall s,
     sanitize_bytes I p s = concat (map render_item (emitted I p (tokenize s))).
   Proof. reflexivity. Qed.
+
+  (* what a tokenizer finds in the bytes of the output *)
+  Theorem C01_output_tokens : plain_policy I p -> forall s t, In t (tokenize (sanitize_bytes I p s)) ->
+    match t with
+    | TText _ => True
+    | TStart n _ | TEnd n | TSelf n _ => elem_allowed I p n = true
+    | TComment _ | TDoctype _ => False
+    end.
+  Proof.
+    intros Hplain s t Hin. pose proof (output_token_provenance M U R I p Hplain s t Hin) as H.
+    destruct t as [d|n a|n|n a|d|d]; auto; try (destruct H as (H & _); exact H).
+    destruct H as (_ & H & _); exact H.
+  Qed.
 End C01.
 
 Print Assumptions C01_items_partial.
+Print Assumptions C01_output_tokens.
